@@ -10,8 +10,13 @@ for d in seeded/*/; do
   pid=$(python3 -c "import json;print(json.load(open('$d/meta.json')).get('property','${n%%-*}'))")
   cd /repo
   if ! git diff --quiet; then echo "repo dirty, abort" | tee -a $out; exit 2; fi
-  if ! git apply --check /verif/$d/patch.diff 2>/dev/null; then echo "$n $pid PATCH-DOES-NOT-APPLY-TO-HEAD" | tee -a $out; cd /verif; continue; fi
-  git apply /verif/$d/patch.diff
+  patch=/verif/$d/patch.diff
+  if ! git apply --check $patch 2>/dev/null; then
+    # a later fix: commit may have touched the same lines; a re-based copy of the same change is kept next to it
+    patch=$(ls /verif/$d/patch.rebased-*.diff 2>/dev/null | tail -1)
+    if [ -z "$patch" ] || ! git apply --check $patch 2>/dev/null; then echo "$n $pid PATCH-DOES-NOT-APPLY-TO-HEAD" | tee -a $out; cd /verif; continue; fi
+  fi
+  git apply $patch
   cd /verif
   o=$(./check $pid quick 2>&1); rc=$?
   git -C /repo checkout -q -- .
